@@ -387,6 +387,14 @@ def generate(c):
     pexps = sorted(set([0, 1, 1023, 2046, 2047] + list(range(1023 - 70, 1023 + 70, 3)) + [1023 + 61, 1023 + 62, 1023 + 63, 1023 + 64, 1023 - 64, 1023 - 65]))
     for b in float_patterns(rng, pexps, 2):
         cases.append(mk(61, b))
+    if not thorough and not os.environ.get("VERIF_C32_LIGHT"):
+        # quick tier: the corpus and every 3rd case of the grid below (the thorough tier runs the whole grid on
+        # larger boundary sets); 3 is coprime with the periods of the generator loops, so every operation,
+        # scalar type and boundary value stays represented
+        nc = dist["corpus"]
+        cases = cases[:nc] + cases[nc::3]
+        n_ntp = sum(1 for x in cases if x["op"] not in PTP_OPS)
+        dist["quick_stride"] = 3
     if os.environ.get("VERIF_C32_LIGHT"):
         # reduced run for mutation tests on an overloaded machine: the corpus and every 7th generated case
         nc = dist["corpus"]
